@@ -119,6 +119,8 @@ def scenarios(quick):
                (T.chain3(maxseq=40, slow=True), 'K', 4 if quick else 60, 2500, 'slow-relay'),
                # the stalled consumer lists an ephemeral source before the synchronized one (request flags must not leak)
                (T.eph_first(maxseq=40), 'K', 4 if quick else 60, 2000, 'eph-first'),
+               # a non-balanced publisher bound to two addresses: the consumer on the other address must still hold it back
+               (T.two_addr(maxseq=40), 'K', 4 if quick else 60, 2000, 'two-addresses'),
                # a producer slower than the request interval: the consumer's periodic re-requests must be collapsed, not queued
                (T.chain2(maxseq=60, slow_origin=True), 'K', 6 if quick else 60, 3000, 'slow-producer')],
     )
